@@ -99,6 +99,18 @@ def o142(ctx):
     if tr is None or not (is_pyconst(tr) and pyval(tr) is True):
         ctx.finding(q, ev.node, "place_object must call rotate with transpose_rotation=True: the particle orientation is an active "
                     "rotation and rotate needs its inverse as pull-back", ev.node, m)
+    # what is rotated is the template itself (read, nothing else): thresholding comes after the rotation, never before it
+    src_ = ev.arg(0) if ev.arg(0) is not None else ev.kwargs.get("input_map")
+    st_ = to_term(src_) if src_ is not None else None
+    bare_ = st_
+    while bare_ is not None and bare_.op == "call" and str(bare_.args[0]) in ("cryocat.cryomap.read", "read", "numpy.asarray", "numpy.array", ".copy", ".astype") \
+            and len(bare_.args) > 1:
+        bare_ = bare_.args[1]
+    ctx.count(1, {"rotated map": tm.show(st_)[:100] if st_ is not None else None})
+    if bare_ is None or bare_ != sym("template"):
+        ctx.finding(q, ev.node, "the map handed to rotate must be the template as read: a template that is thresholded (or otherwise changed) before "
+                    "the rotation gives threshold(rotate(threshold(T))), a dilated stamp for grey-valued templates at oblique poses; "
+                    f"rotated: {tm.show(st_)[:100] if st_ is not None else None}", ev.node, m)
     want_R = particle_R()
     rt = to_term(rot) if rot is not None else const(None)
     ctx.count(1)
